@@ -713,6 +713,70 @@ fn replay_received_edge_foreign_source(sc: &Value) -> Value {
     })
 }
 
+/// C02 (received reference deletions): the remote author may delete every row of ns.E in room A only.  It delivers a validly signed
+/// deletion record, stamped with room A, for a reference whose SOURCE row lives in room B (or, as a control, in room A).
+fn replay_received_edge_deletion_foreign_source(sc: &Value) -> Value {
+    use crate::database::graph_database::GraphDatabaseService;
+    use crate::database::query_language::parameter::{Parameters, ParametersAdd};
+    let has_right = sc["author_has_right"].as_bool().unwrap_or(true);
+    let in_room = sc["source_in_room"].as_bool().unwrap_or(false);
+    let rt = tokio::runtime::Builder::new_multi_thread().enable_all().worker_threads(2).build().unwrap();
+    rt.block_on(async {
+        let base = std::env::var("VERIF_DATA_DIR").unwrap_or_else(|_| "/var/cache/discret-verif/data".to_string());
+        let path: std::path::PathBuf = format!("{}/c02edgedel/{}", base, crate::security::base64_encode(&crate::security::random32()[0..6])).into();
+        std::fs::create_dir_all(&path).unwrap();
+        let (app, own_key, _) = GraphDatabaseService::start(
+            "verif c02 edge deletions",
+            "ns { E{ name:String, refs:[ns.E] } }",
+            &crate::security::random32(),
+            &crate::security::random32(),
+            path,
+            &crate::configuration::Configuration::default(),
+            crate::event_service::EventService::new(),
+        )
+        .await
+        .unwrap();
+        let mut keys = Keys::new();
+        let own = crate::security::base64_encode(&own_key);
+        let member = crate::security::base64_encode(&keys.vk(if has_right { "K2" } else { "K3" }));
+        let mk_room = |users: String| {
+            let app = app.clone();
+            let own = own.clone();
+            async move {
+                let mut p = Parameters::default();
+                p.add("k", own).unwrap();
+                p.add("a", users).unwrap();
+                let r = app
+                    .mutate_raw(
+                        r#"mutate { sys.Room{ admin:[{ verif_key:$k }] authorisations:[{ name:"g" rights:[{ entity:"ns.E" mutate_self:true mutate_all:true }] users:[{ verif_key:$k },{ verif_key:$a }] }] } }"#,
+                        Some(p),
+                    )
+                    .await
+                    .unwrap();
+                r.mutate_entities[0].node_to_mutate.id
+            }
+        };
+        let room_a = mk_room(member).await;
+        let room_b = mk_room(own.clone()).await;
+        let src_room = if in_room { room_a } else { room_b };
+        let mut p = Parameters::default();
+        p.add("room", crate::security::base64_encode(&src_room)).unwrap();
+        let target = app.mutate_raw(r#"mutate { ns.E{ room_id:$room name:"kept reference" } }"#, Some(p)).await.unwrap();
+        let target_id = target.mutate_entities[0].node_to_mutate.id;
+        let mut p = Parameters::default();
+        p.add("room", crate::security::base64_encode(&src_room)).unwrap();
+        p.add("t", crate::security::base64_encode(&target_id)).unwrap();
+        let owner_row = app.mutate_raw(r#"mutate { ns.E{ room_id:$room name:"owner row" refs:[{ id:$t }] } }"#, Some(p)).await.unwrap();
+        let edge = owner_row.mutate_entities[0].edge_insertions[0].clone();
+        let before = app.query(r#"query { ns.E(name="owner row"){ name refs{ name } } }"#, None).await.unwrap();
+        // the record is stamped with room A, where the remote author holds the all-rows right
+        let entry = EdgeDeletionEntry::build(room_a, &edge, crate::date_utils::now(), keys.signing("K2"));
+        let res = app.delete_edges(vec![entry]).await;
+        let after = app.query(r#"query { ns.E(name="owner row"){ name refs{ name } } }"#, None).await.unwrap();
+        json!({"status": "done", "result_ok": res.is_ok(), "reference_before": before.contains("kept reference"), "deleted": !after.contains("kept reference")})
+    })
+}
+
 /// C11: through the API of a real database: a row is written and deleted; then a peer that has not seen the deletion announces it
 /// (filter_existing_node) and, if it is requested, delivers it (add_nodes).  Is the row visible again ?
 fn replay_deleted_row_announced(sc: &Value) -> Value {
@@ -1791,6 +1855,7 @@ pub fn dispatch(sc: &Value) -> Value {
         "version_selection" => replay_version_selection(sc),
         "deleted_row_announced" => replay_deleted_row_announced(sc),
         "received_edge_foreign_source" => replay_received_edge_foreign_source(sc),
+        "received_edge_deletion_foreign_source" => replay_received_edge_deletion_foreign_source(sc),
         "lock_service" => crate::synchronisation::room_locking_service::verif_hook::replay_lock_service(sc),
         "invite_consumption" => crate::network::peer_manager::verif_hook::replay_invite_consumption(sc),
         "data_model_update" => replay_data_model_update(sc),
